@@ -48,7 +48,7 @@ func runC03(e *Env) {
 		}
 		r.Bad("E1.andor", pr.Key, pos, pr.Detail)
 	}
-	swc := p.Func(load.PkgRoot, "SyscallWithConditions.Assemble")
+	swc := m.condEmitter()
 	nAnd, nOr := 0, 0
 	c := newWctx(e, m, "x86_64=true,short=true")
 	for _, nd := range c.w.Nodes {
@@ -240,7 +240,7 @@ func checkMerge(e *Env, m *e1Model) {
 							}
 						}
 					}
-					inPlace := good && strings.Contains(base.Args[0].String(), "getSyscall(")
+					inPlace := good && gs != nil && originCalls(base.Args[0], gs)
 					r.Check(good && stored && inPlace, "E1.merge", "toSyscallsWithConditions/merge-appends-in-place", p.Pos(x.Pos()),
 						"a further list for the same syscall is appended to the entry found in place (OR-list grows)",
 						fmt.Sprintf("merging does not append the ranged name's list to the found entry in place (append ok=%v, stored back=%v, entry addressed through getSyscall=%v): a list would be lost or overwrite another", good, stored, inPlace))
@@ -633,7 +633,8 @@ func runC05(e *Env) {
 		r.Check(ok, "E1.retset", "return-value/"+rc, "", "a value the statement allows", "a return of "+rc+" is neither the default action, a group's action nor ERRNO|ENOSYS")
 	}
 	checkRetContract(e, m, "E1.retset")
-	checkPatcherBridgeKinds(e, m)
+	checkPatcherBridgeKinds(e, m, "E1.retset")
+	checkRetLiterals(e, m, "E1.retset")
 	checkNarrowing(e, m)
 }
 
@@ -646,12 +647,12 @@ func objList(m *e1Model) []*emit.Obj {
 }
 
 // checkPatcherBridgeKinds: instructions the patcher inserts are a Jump or a copy of an existing return.
-func checkPatcherBridgeKinds(e *Env, m *e1Model) {
+func checkPatcherBridgeKinds(e *Env, m *e1Model, rule string) {
 	r := e.R
 	p := m.p
 	ia := p.Func(load.PkgRoot, "Program.insertAfter")
 	if ia == nil {
-		r.Unknown("E1.retset", "patcher-bridges", "", "insertAfter not found")
+		r.Unknown(rule, "patcher-bridges", "", "insertAfter not found")
 		return
 	}
 	n := 0
@@ -679,7 +680,7 @@ func checkPatcherBridgeKinds(e *Env, m *e1Model) {
 					good = false
 				}
 			}
-			r.Check(good, "E1.retset", load.FuncName(fn)+"/bridge-kinds", p.Pos(c.Pos()), "inserted instructions are unconditional jumps or copies of instructions already in the list: the return set stays closed", "the patcher inserts an instruction that is neither a Jump nor a copy of an existing instruction")
+			r.Check(good, rule, load.FuncName(fn)+"/bridge-kinds", p.Pos(c.Pos()), "inserted instructions are unconditional jumps or copies of instructions already in the list: the return set stays closed", "the patcher inserts an instruction that is neither a Jump nor a copy of an existing instruction")
 		}
 	}
 	r.Floor("E1.retset(bridge insertion sites)", n, 1)
